@@ -349,8 +349,8 @@ class QuoteClient(F.Client):
 
 def rule_quote_state(m, rid):
     r = RuleResult(rid, "a comment ends character context: whenever handle_inline_comment reports a comment it returns no open quote; "
-                        "callers thread the returned quote state")
-    r.floor = 4
+                        "callers thread the returned quote state; comment lines inside a continuation are comments whatever the state")
+    r.floor = 5
     f = reader_func(m, "handle_inline_comment")
     for qv, label in ((F.NONE, "quotechar=None"), (F.TRUTHY, "quotechar=open")):
         fl = F.Flow(m, f, QuoteClient())
@@ -390,6 +390,35 @@ def rule_quote_state(m, rid):
                         r.fail("get_source_item|thread|%s" % recv, "inside a continuation loop handle_inline_comment is called with quote state "
                                "`%s` but its result is stored in `%s`: a character literal continued over lines loses its context"
                                % (arg, recv), m.loc(g, x))
+    # a comment LINE between continuation lines is a comment whatever the quote state (F2003 3.3.1.3: the continued character
+    # context resumes on the next line that is not a comment): the branch that buffers such a line must not be conditioned on it
+    quote_vars = set()
+    for x in ast.walk(g.node):
+        if isinstance(x, ast.Assign) and isinstance(x.value, ast.Call) and A.text(x.value.func).endswith("handle_inline_comment") \
+                and isinstance(x.targets[0], ast.Tuple) and len(x.targets[0].elts) == 3:
+            quote_vars.add(A.text(x.targets[0].elts[1]))
+    Pg = A.parents(g.node)
+    for n in A.body_nodes(g.node):
+        if not (isinstance(n, ast.If) and any(isinstance(c, ast.Call) and A.text(c.func).endswith("comment_item") for s_ in n.body for c in ast.walk(s_))
+                and any(isinstance(s_, ast.Continue) for s_ in n.body)):
+            continue
+        # only the branches inside a continuation loop that look at the start of the line
+        if not any(isinstance(c, ast.Call) and isinstance(c.func, ast.Attribute) and c.func.attr == "startswith" for c in ast.walk(n.test)):
+            continue
+        r.instances += 1
+        tests = [n.test]
+        x = n
+        while x in Pg and not isinstance(Pg[x], (ast.While, ast.For)):
+            p_ = Pg[x]
+            if isinstance(p_, ast.If) and x in p_.body:
+                tests.append(p_.test)
+            x = p_
+        dep = sorted({y.id for t in tests for y in ast.walk(t) if isinstance(y, ast.Name)} & quote_vars)
+        r.ob(not dep, "get_source_item: comment line inside a continuation recognised under `%s`" % A.text(n.test)[:50])
+        if dep:
+            r.fail("get_source_item|continuation-comment|%s" % ",".join(dep), "get_source_item recognises a comment line between continuation lines only "
+                   "when the quote state `%s` allows it: a comment line between the two halves of a continued character literal is glued "
+                   "into the literal instead of being kept as a comment" % dep[0], m.loc(g, n))
     return r
 
 
@@ -517,11 +546,17 @@ def rule_semicolon(m, rid):
             continue
         r.instances += 1
         part_vars = set(A.assigned_names(loop.target))
-        ok = any(isinstance(g, ast.Name) and g.id in part_vars for g in guards) or \
+        # the guard looks at the part with its blanks removed: `x = part.strip(); if x:` or `if part.strip():`
+        stripped = set()
+        for s_ in ast.walk(loop):
+            if isinstance(s_, ast.Assign) and isinstance(s_.value, ast.Call) and isinstance(s_.value.func, ast.Attribute) \
+                    and s_.value.func.attr == "strip" and A.text(s_.value.func.value) in part_vars | stripped and s_.lineno <= c.lineno:
+                stripped |= set(A.assigned_names(s_.targets[0]))
+        ok = any(isinstance(g, ast.Name) and g.id in stripped for g in guards) or \
             any(isinstance(g, ast.Call) and isinstance(g.func, ast.Attribute) and g.func.attr == "strip" and A.text(g.func.value) in part_vars for g in guards)
-        r.ob(ok, "_next: a Line is built from a ';' part only under `if <part>`")
+        r.ob(ok, "_next: a Line is built from a ';' part only under `if <stripped part>`")
         if not ok:
-            r.fail("_next|empty-part", "_next builds a Line from every ';' part, including an empty one (`x = 1; y = 2;`): Line raises on empty "
+            r.fail("_next|empty-part", "_next builds a Line from every ';' part, including an empty or blank one (`x = 1; y = 2;`, `a = 1; ; b = 2`): Line raises on empty "
                    "text and next() reports that as end of input, so the statements of that source line are silently dropped", m.loc(nx, c))
     # every Line built from a part: apply_map + extract_label before extract_construct_name
     r.instances += 1
